@@ -60,3 +60,25 @@ def register(PROPS, h):
                    thorough={"own-announcements-observed": 600000, "own-announcements-observed.after-clock-stalled-or-went-back": 200000}),
         runs=dict(quick=[native("h-node", "C29")], thorough=[native("h-node", "C29"), native("h-node", "C29", profile="release")]),
     )
+
+    PROPS["C16"] = dict(
+        title="At most one fetch per repository, attributed to the right peer",
+        level="exploration",
+        technique="runtime monitor over systematically enumerated and random event schedules fed to the real Service; the harness plays wire + workers (transcription of Wire::worker_result's forwarding rule) with connection epochs and per-task result markers",
+        rule=("Systematic part: EVERY sequence of length 5 (thorough: 6) over a reduced alphabet (2 peers x {connect, disconnect, fetch command, "
+              "refs announcement} + deliver-result(oldest ok / 2nd err)) starting with a connect or a fetch command, each on a fresh real "
+              "Service (events that are not enabled are skipped). Random part: schedules of 10-30 events over 2-3 peers, 1-2 repositories, "
+              "fetch_concurrency 1-2, alphabet {connect in/out, disconnect, fetch command, refs announcement, inventory announcement, "
+              "deliver result (ok/err/timeout, any pending task), wake}. Every Io::Fetch becomes a task tagged with its peer's connection "
+              "epoch; results are delivered at any later step and forwarded iff a connection to the peer exists then; Io::Disconnect is "
+              "honoured. After every event: <= 1 unanswered current-epoch task per repository; <= fetch_concurrency per peer; queue <= 128; "
+              "every live task still has its fetch-state entry attributed to its peer; results seen on a command's channel carry the marker "
+              "of a task of that repository and peer from the command's connection epoch or later; no panic. Non-trivial = schedule that "
+              "started at least one fetch; distinct by event-log hash."),
+        assumptions=SVC_TB + ["the environment only produces event orders the real Wire produces: one session per peer at a time, attempted before outbound connected, Io::Fetch for an unconnected peer dropped, worker results in any order and at any later time",
+                              "Wire::worker_result's rule (forward iff a connection to that NodeId exists) is transcribed, not executed"],
+        gates=dict(quick={"schedules.result-delivered-after-disconnect-and-reconnect": 1000, "schedules.with-two-or-more-fetch-tasks": 10000, "subscriber-results-observed": 30000, "systematic.schedules": 20000},
+                   thorough={"schedules.result-delivered-after-disconnect-and-reconnect": 20000, "systematic.schedules": 300000}),
+        exhaustive=dict(quick="all event sequences of length 5 over the reduced 2-peer/1-repository alphabet (12 symbols)", thorough="all event sequences of length 6 over the reduced alphabet"),
+        runs=dict(quick=[native("h-node", "C16")], thorough=[native("h-node", "C16"), native("h-node", "C16", profile="release")]),
+    )
